@@ -11,7 +11,7 @@ ALLCHECKS=$(python3 -c "import json;print(' '.join(c['property_id'] for c in jso
 TRIAGE=${TRIAGE:-"/tmp/eval/out/summary.txt /tmp/eval2/out/summary.txt"}
 mkdir -p /verif/seeded/logs
 for ID in $IDS; do
-  if ! git -C /repo apply --check seeded/$ID/patch.diff 2>/dev/null; then
+  if ! git -C /repo apply --check /verif/seeded/$ID/patch.diff 2>/dev/null; then
     echo "$ID: patch does not apply to /repo HEAD"; python3 - "$ID" <<'PY'
 import json,sys
 p='/verif/seeded/%s/meta.json'%sys.argv[1]; m=json.load(open(p)); m['status_at_head']='patch no longer applies to /repo HEAD (a later fix: commit changed the same lines)'; m.pop('detected_by_quick_checks',None); json.dump(m,open(p,'w'),indent=1)
@@ -22,7 +22,7 @@ PY
   if [ -n "$ALL" ]; then CHECKS="$ALLCHECKS"; else
     CHECKS=$( (echo $OWN; cat $TRIAGE 2>/dev/null | grep "^$ID:" | tr ' ' '\n' | grep '=1$' | cut -d= -f1) | sort -u | tr '\n' ' ')
   fi
-  git -C /repo apply seeded/$ID/patch.diff
+  git -C /repo apply /verif/seeded/$ID/patch.diff
   DET=""; ALLRC=""
   for c in $CHECKS; do
     ./check.sh $c quick > seeded/logs/$ID.$c.log 2>&1; rc=$?
